@@ -2,6 +2,7 @@
 from pyvc.contracts import Contract, LoopSpec
 
 M = "superrec2.utils.trees"
+REQUIRES = ["subsequences"]
 
 
 # ---- native (CPython) reading of the tree vocabulary: parent chains only, independent of the code under test
@@ -89,6 +90,8 @@ def setup(E):
             ("common-ancestor", "forall(lambda i: implies(0 <= i and i < len(nodes), anc(result, nodes[i])), Int)"),
             ("deepest", "forall(lambda c: implies(forall(lambda i: implies(0 <= i and i < len(nodes), anc(c, nodes[i])), Int), anc(c, result)), Node)"),
             ("in-tree", "rootof(result) == self.tree"),
+            ("binary-case", "implies(len(nodes) == 2, result == lca2(nodes[0], nodes[1]))"),
+            ("unary-case", "implies(len(nodes) == 1, result == nodes[0])"),
         ],
         note="Euler-tour/range-minimum implementation => lowest common ancestor: L2 lemma not proved; bounded validation on all trees <= 7 nodes",
         props=["C17"]))
@@ -142,14 +145,22 @@ def ordered_trees(n):
     return [f for f in forests(n - 1)]
 
 
-def build_tree(shape):
+def build_tree(shape, variant=0):
+    """variant 0: unique names, unit branch lengths; otherwise pseudo-random repeated / empty names and lengths."""
+    import random
     from ete3 import Tree
 
     nodes = []
+    rnd = random.Random(variant)
 
     def go(sh):
         t = Tree()
         t.name = f"n{len(nodes)}"
+        if variant < 0:
+            t.name = ""  # unnamed nodes (what ete3 produces for a Newick string without internal names)
+        elif variant:
+            t.name = rnd.choice(["", "x", "y", t.name])
+            t.dist = rnd.choice([0.0, 0.5, 1.0, 2.0, 3.0])
         nodes.append(t)
         for c in sh:
             t.add_child(go(c))
@@ -175,6 +186,8 @@ def _scopes(E):
                 for a in range(n):
                     for b in range(n):
                         yield {"shape": sh, "first": a, "second": b}
+                        if n >= 2 and a != b:
+                            yield {"shape": sh, "first": a, "second": b, "variant": -1 if (a + b) % 2 else 1 + (a * 7 + b * 3 + n) % 50}
         for _ in range(20 if tier != "thorough" else 200):
             n = rng.randrange(8, 41)
             par = [None] + [rng.randrange(0, i) for i in range(1, n)]
@@ -195,9 +208,11 @@ def _scopes(E):
     def mk_build(method):
         def build(recipe, src_root):
             mod = native.import_real(M, src_root)
-            root, nodes = build_tree(shape_of(recipe["shape"]))
-            lca = mod.LowestCommonAncestor(root)
-            return (lambda self, first, second: getattr(self, method)(first, second)), {"self": lca, "first": nodes[recipe["first"]], "second": nodes[recipe["second"]]}, uni(nodes)
+            import types
+
+            root, nodes = build_tree(shape_of(recipe["shape"]), recipe.get("variant", 0))
+            stub = types.SimpleNamespace(tree=root)  # the real object is built inside the checked call
+            return (lambda self, first, second: getattr(mod.LowestCommonAncestor(self.tree), method)(first, second)), {"self": stub, "first": nodes[recipe["first"]], "second": nodes[recipe["second"]]}, uni(nodes)
         return build
 
     d = "all rooted ordered trees with <= 6 (7 thorough) nodes x all ordered node pairs; 20 (200) random trees of 8-40 nodes x 10 pairs"
@@ -213,12 +228,16 @@ def _scopes(E):
                         if k == 3 and tier != "thorough" and n > 4:
                             continue
                         yield {"shape": sh, "nodes": list(idx)}
+                        if n >= 2 and sum(idx) % 4 == 1:
+                            yield {"shape": sh, "nodes": list(idx), "variant": 1 + sum(idx) % 5}
 
     def build_call(recipe, src_root):
+        import types
+
         mod = native.import_real(M, src_root)
-        root, nodes = build_tree(shape_of(recipe["shape"]))
-        lca = mod.LowestCommonAncestor(root)
-        return (lambda self, *ns: self(*ns)), {"self": lca, "nodes": [nodes[i] for i in recipe["nodes"]]}, uni(nodes)
+        root, nodes = build_tree(shape_of(recipe["shape"]), recipe.get("variant", 0))
+        stub = types.SimpleNamespace(tree=root)
+        return (lambda self, *ns: mod.LowestCommonAncestor(self.tree)(*ns)), {"self": stub, "nodes": [nodes[i] for i in recipe["nodes"]]}, uni(nodes)
 
     E.registry.scopes[f"{M}:LowestCommonAncestor.__call__"] = Scope(
         gen_call, build_call, describe="all rooted ordered trees with <= 5 (7) nodes x all node tuples of length 1-3", nontrivial=lambda r: len(set(r["nodes"])) > 1)
@@ -228,12 +247,16 @@ def _scopes(E):
             for sh in ordered_trees(n):
                 for a in range(n):
                     yield {"shape": sh, "node": a}
+                    if n >= 2:
+                        yield {"shape": sh, "node": a, "variant": 1 + a % 5}
 
     def build_level(recipe, src_root):
+        import types
+
         mod = native.import_real(M, src_root)
-        root, nodes = build_tree(shape_of(recipe["shape"]))
-        lca = mod.LowestCommonAncestor(root)
-        return (lambda self, node: self.level(node)), {"self": lca, "node": nodes[recipe["node"]]}, uni(nodes)
+        root, nodes = build_tree(shape_of(recipe["shape"]), recipe.get("variant", 0))
+        stub = types.SimpleNamespace(tree=root)
+        return (lambda self, node: mod.LowestCommonAncestor(self.tree).level(node)), {"self": stub, "node": nodes[recipe["node"]]}, uni(nodes)
 
     E.registry.scopes[f"{M}:LowestCommonAncestor.level"] = Scope(gen_level, build_level, describe="all rooted ordered trees with <= 6 nodes x all nodes")
 
@@ -285,3 +308,50 @@ _setup3 = setup
 def setup(E):  # noqa: F811
     _setup3(E)
     _axiom_standin(E)
+
+
+def _traversal_theory(E):
+    """Assumed contract of ete3 TreeNode.traverse(strategy) and .up, in the tree vocabulary."""
+    def order_of(strategy):
+        def nth(r, i):
+            return list(r.traverse(strategy))[i]
+
+        def idx(r, n):
+            for i, x in enumerate(r.traverse(strategy)):
+                if x is n:
+                    return i
+            return -1
+        return nth, idx
+
+    E.declare_ufun("size", ["Node"], "Int", native=lambda r: sum(1 for _ in r.traverse()))
+    E.declare_ufun("up", ["Node"], "Node", native=lambda n: n.up)
+    note = "assumed contract of ete3 traverse(); conformance-tested on concrete trees by the axiom stand-in"
+    for pref, strategy in (("pre", "preorder"), ("post", "postorder"), ("lvl", "levelorder")):
+        nth, idx = order_of(strategy)
+        E.declare_ufun(f"{pref}_nth", ["Node", "Int"], "Node", native=nth)
+        E.declare_ufun(f"{pref}_idx", ["Node", "Node"], "Int", native=idx)
+        E.axiom(f"tree/{pref}-in-subtree", f"forall(lambda r, i: implies(0 <= i and i < size(r), anc(r, {pref}_nth(r, i)) and {pref}_idx(r, {pref}_nth(r, i)) == i), Node, Int)", note)
+        E.axiom(f"tree/{pref}-covers", f"forall(lambda r, n: implies(anc(r, n), 0 <= {pref}_idx(r, n) and {pref}_idx(r, n) < size(r) and {pref}_nth(r, {pref}_idx(r, n)) == n), Node, Node)", note)
+    E.axiom("tree/size-pos", "forall(lambda r: size(r) >= 1, Node)", note)
+    E.axiom("tree/pre-parent-first", "forall(lambda r, a, b: implies(anc(r, a) and anc(a, b) and a != b, pre_idx(r, a) < pre_idx(r, b)), Node, Node, Node)", note)
+    E.axiom("tree/lvl-parent-first", "forall(lambda r, a, b: implies(anc(r, a) and anc(a, b) and a != b, lvl_idx(r, a) < lvl_idx(r, b)), Node, Node, Node)", note)
+    E.axiom("tree/post-children-first", "forall(lambda r, a, b: implies(anc(r, a) and anc(a, b) and a != b, post_idx(r, b) < post_idx(r, a)), Node, Node, Node)", note)
+    E.axiom("tree/up", """forall(lambda n: implies(n != rootof(n) and binary(rootof(n)),
+          anc(up(n), n) and up(n) != n and not leaf(up(n)) and (left(up(n)) == n or right(up(n)) == n)), Node)""", note)
+    E.axiom("tree/up-of-child", "forall(lambda a: implies(binary(rootof(a)) and not leaf(a), up(left(a)) == a and up(right(a)) == a), Node)", note)
+
+
+_setup4 = setup
+
+
+def setup(E):  # noqa: F811
+    _traversal_theory_done = False
+    _setup4(E)
+
+
+_orig_setup_contracts = _setup_contracts
+
+
+def _setup_contracts(E):  # noqa: F811  (the traversal theory must exist before the axiom stand-in is built)
+    _orig_setup_contracts(E)
+    _traversal_theory(E)
